@@ -510,6 +510,7 @@ func (f *frame) hereEnv(st *State) *Env {
 	c := f.c
 	b := f.curBlock
 	return &Env{c: c, vars: f.ghostVars(), cur: st, old: c.entry, pkg: pkgOf(f.fn), guard: st.reach,
+		entry:      f.entryParams(),
 		lookupAddr: f.allocAddr,
 		lookup: func(name string) (Val, bool) {
 			return f.withState(st, func() (Val, bool) { return f.lookupVarAt(name, b, f.curIdx) })
@@ -668,6 +669,9 @@ func (f *frame) applyContract(fs *FuncSpec, callee *ssa.Function, sig *types.Sig
 	var results []Val
 	if fs.Function {
 		results = c.functionResults(sig, name, args)
+		for _, r := range results {
+			c.wellFormed(st.reach, r, st)
+		}
 	} else {
 		results = f.havocResults(sig, name, st)
 	}
